@@ -215,9 +215,9 @@ fn model_files(tier: Tier) -> Vec<(String, std::path::PathBuf, EnergyRateUnit)> 
         .collect()
 }
 
-fn check_model(name: &str, path: &std::path::Path, eru: EnergyRateUnit, tier: Tier, st: &mut Stats) {
-    let su = SpeedUnit::MilesPerHour;
-    let gu = GradeUnit::Decimal;
+/// `su`, `gu`, `eru`: the units the model is declared with (the same for the interpolated and the separately loaded
+/// underlying model); speed, grade and rate units built on different distance units must not change the comparison
+fn check_model(name: &str, path: &std::path::Path, su: SpeedUnit, gu: GradeUnit, eru: EnergyRateUnit, tier: Tier, st: &mut Stats) {
     let underlying = match SmartcoreSpeedGradeModel::new(&path, su, gu, eru) {
         Ok(m) => m,
         Err(e) => {
@@ -266,7 +266,7 @@ fn check_model(name: &str, path: &std::path::Path, eru: EnergyRateUnit, tier: Ti
                         st.traces += 1;
                         let s = if fs == 1.0 { s1 } else { s0 + (s1 - s0) * fs };
                         let g = if fg == 1.0 { g1 } else { g0 + (g1 - g0) * fg };
-                        let case = || json!({"kind": "model", "model": name, "grid": grid_desc, "speed_mph": s, "grade_decimal": g});
+                        let case = || json!({"kind": "model", "model": name, "grid": grid_desc, "declared_units": [su.to_string(), gu.to_string(), eru.to_string()], "speed": s, "grade": g});
                         let size = (*ci * 100 + *cj) as u64;
                         match interp(s, g) {
                             Err(p) => st.violation("interpolated_model", "no_panic", size, || p.clone(), case),
@@ -329,7 +329,7 @@ fn check_model(name: &str, path: &std::path::Path, eru: EnergyRateUnit, tier: Ti
             st.evaluations += 1;
             st.transitions += 2;
             st.traces += 1;
-            let case = || json!({"kind": "model_outside", "model": name, "grid": grid_desc, "speed_mph": s, "grade_decimal": g});
+            let case = || json!({"kind": "model_outside", "model": name, "grid": grid_desc, "declared_units": [su.to_string(), gu.to_string(), eru.to_string()], "speed": s, "grade": g});
             match (interp(s, g), interp(cs, cg)) {
                 (Ok(Ok(v)), Ok(Ok(c))) => {
                     if close(v, c, 1e-9) {
@@ -388,7 +388,20 @@ pub fn run(tier: Tier) -> i32 {
     let mst = par_blocks(nm, 1, |lo, hi, st| {
         for i in lo..hi {
             let (name, path, eru) = &models[i as usize];
-            check_model(name, path, *eru, tier, st);
+            // declared units: the bundled configuration (mph, decimal, per mile) and combinations whose speed and rate units
+            // are built on different distance units; quick: the bundled one plus one other, rotating with the model
+            let declared = [
+                (SpeedUnit::MilesPerHour, GradeUnit::Decimal, *eru),
+                (SpeedUnit::KilometersPerHour, GradeUnit::Decimal, *eru),
+                (SpeedUnit::MilesPerHour, GradeUnit::Percent, EnergyRateUnit::KilowattHoursPerKilometer),
+                (SpeedUnit::MetersPerSecond, GradeUnit::Decimal, EnergyRateUnit::KilowattHoursPerMeter),
+            ];
+            for (di, (su, gu, eru)) in declared.iter().enumerate() {
+                if tier == Tier::Quick && di != 0 && di != 1 + (i as usize % 3) {
+                    continue;
+                }
+                check_model(name, path, *su, *gu, *eru, tier, st);
+            }
             st.sample(2, || json!({"kind": "model", "model": name, "grids": tier.pick(2, 4), "lattice": "corners, centre, quarter points and edge midpoints of the selected cells; +-1e-7 around grid lines; beyond each bound; 3x3 input units"}));
         }
     });
@@ -400,7 +413,7 @@ pub fn run(tier: Tier) -> i32 {
         true,
         json!({"bundled_models": nm, "generic_dimensions": [1, 2, 3, 4]}),
         vec![
-            "underlying model loaded separately with the same units; grid coordinates come from the repository's linspace so both sides see bit-identical inputs".into(),
+            "underlying model loaded separately with the same declared units (the bundled mph / decimal / per-mile declaration and three declarations whose speed and rate units are built on different distance units); grid coordinates come from the repository's linspace so both sides see bit-identical inputs".into(),
             "energy-rate unit per model is assigned by name (electric / diesel / gasoline); it does not influence the comparison".into(),
         ],
     )
